@@ -164,6 +164,24 @@ func mutations(v []byte, rng interface {
 		}
 		add("bitflip", c)
 	}
+	// a 16-bit length field near its maximum AND enough bytes behind it to satisfy it: 16-bit offset arithmetic (8 + len) wraps
+	for _, off := range capIdx(minInt(L, 48), 24*scale, rng) {
+		if off+2 > L {
+			continue
+		}
+		for _, p := range [][]byte{{0xff, 0xff}, {0xff, 0xf8}, {0xff, 0xfe}} {
+			for _, extra := range []int{0, 1, 9} {
+				c := append([]byte{}, v[:off+2]...)
+				copy(c[off:], p)
+				rest := make([]byte, 65535+extra)
+				copy(rest, v[off+2:])
+				if extra == 9 {
+					rng.Read(rest[minInt(len(rest), L):])
+				}
+				add("window+extend", append(c, rest...))
+			}
+		}
+	}
 	// combined: truncate AND overwrite a window in the head (length field larger than what is left)
 	for i := 0; i < 40*scale && L > 8; i++ {
 		n := 4 + rng.Intn(L-4)
